@@ -22,6 +22,7 @@ type authCall struct {
 	user   string
 	pass   string
 	answer string // basic:1 | basic:0 | ntlmchal | ntlmok:<user> | ntlmno | err
+	msg    string // ntlm: the message the gateway handed over
 }
 
 type fakeAuth struct {
@@ -32,6 +33,8 @@ type fakeAuth struct {
 	users map[string]string
 	mu    sync.Mutex
 	calls []authCall
+	// scripted: answer every NTLM request with this challenge instead of running the verifier
+	scriptedChallenge string
 }
 
 func newFakeAuth(sock string, users map[string]string) *fakeAuth {
@@ -80,6 +83,10 @@ func (f *fakeAuth) Authenticate(ctx context.Context, m *auth.UserPass) (*auth.Au
 }
 
 func (f *fakeAuth) NTLM(ctx context.Context, m *auth.NtlmRequest) (*auth.NtlmResponse, error) {
+	if f.scriptedChallenge != "" {
+		f.record(authCall{kind: "ntlm", answer: "ntlmchal", msg: m.NtlmMessage})
+		return &auth.NtlmResponse{NtlmMessage: f.scriptedChallenge}, nil
+	}
 	var r *auth.NtlmResponse
 	var err error
 	func() {
@@ -100,7 +107,7 @@ func (f *fakeAuth) NTLM(ctx context.Context, m *auth.NtlmRequest) (*auth.NtlmRes
 	case r.NtlmMessage != "":
 		a = "ntlmchal"
 	}
-	f.record(authCall{kind: "ntlm", answer: a})
+	f.record(authCall{kind: "ntlm", answer: a, msg: m.NtlmMessage})
 	return r, err
 }
 
